@@ -1,0 +1,20 @@
+//go:build verif
+
+package renderer
+
+import "github.com/golang/geo/r2"
+
+// Verification hooks (property C34, see /verif): the unexported line simplification functions,
+// exposed unchanged for the correspondence harness. Built only with -tags verif.
+
+func VerifReferenceDouglasPeuckerSimplify(points []r2.Point, epsilon float64) []r2.Point {
+	return referenceDouglasPeuckerSimplify(points, epsilon)
+}
+
+func VerifDouglasPeuckerSimplify(points []r2.Point, epsilon float64) []r2.Point {
+	return douglasPeuckerSimplify(points, epsilon)
+}
+
+func VerifDistance(a r2.Point, b r2.Point, p r2.Point) float64 {
+	return distance(a, b, p)
+}
